@@ -21,6 +21,18 @@ fn msg_fields(f: &mut Value, g: Option<&Gen>, m: &[u8]) {
     f["len"] = json!(m.len());
     match g { Some(g) => { f["gen"] = g.json(); } None => { f["gen"] = raw_json(); f["raw"] = bytes(m); } }
 }
+/// scalars with zero limbs: 2^128 + c, 2^192 + c, 2^192 + c*2^64, c*2^64 (c < 2^64) -- square-and-multiply / window code paths that skip work on zero words
+pub fn sparse_scalar(rng: &mut Rng, which: usize) -> Vec<u8> {
+    let c = (rng.next() | 1).to_be_bytes();
+    let mut k = vec![0u8; 32];
+    match which % 4 {
+        0 => { k[15] = 1; k[24..32].copy_from_slice(&c); }
+        1 => { k[7] = 1; k[24..32].copy_from_slice(&c); }
+        2 => { k[7] = 1; k[16..24].copy_from_slice(&c); }
+        _ => { k[16..24].copy_from_slice(&c); }
+    }
+    k
+}
 fn scalar(rng: &mut Rng) -> Vec<u8> { let mut k = rng.bytes(32); k[0] &= 0x7f; k[0] |= 0x01; k }      // < 2^255 < N, non-zero
 
 /// run `f` under the gm-sm9 RNG hook; returns (outcome, accepted scalars, full log)
@@ -155,7 +167,8 @@ pub fn drive_sign(t: &mut Tracer, tier: &str, seed: u64, plan: Option<String>) {
         for (j, len) in lens.iter().enumerate() {
             let id = { let l = 1 + rng.below(20) as usize; rng.bytes(l) };
             let m = g.msg(*len);
-            let script = match (ki + j) % 3 { 0 => vec![], 1 => vec![b32(&be_add_small(&vec![0u8; 32], 1 + (j as i64)))], _ => vec![b32(&be_add_small(&nhex, -1 - (j as i64)))] };
+            let script = match (ki + j) % 4 { 0 => vec![], 1 => vec![b32(&be_add_small(&vec![0u8; 32], 1 + (j as i64)))], 2 => vec![b32(&be_add_small(&nhex, -1 - (j as i64)))],
+                _ => vec![b32(&sparse_scalar(&mut rng, (ki + j) % 2))] };   // (forms with a zero LOW limb are rejected by the library's sampler)      // exponents with all-zero 64-bit limbs below a non-zero limb
             if let Some((h, s, r)) = sign_event(t, &sess(), &c, &id, Some(&g), &m, script) {
                 verify_event(t, &sess(), &c, &c.msk.ppubs, false, &id, Some(&g), &m, &ub(&h), &s, Some(&r), "none");
                 if valid.len() < (if thorough { 6 } else { 1 }) { valid.push((sign_ctx(&c.ks), id.clone(), m.clone(), h, s, r)); }
@@ -236,6 +249,13 @@ pub fn drive_encrypt(t: &mut Tracer, tier: &str, seed: u64, plan: Option<String>
     let r2 = b32(&scalar(&mut rng));
     if let Some((ct, r)) = encrypt_event(t, &sess(), &annex, b"Bob", None, &[0x5a], vec![r1, r2]) {
         decrypt_event(t, &sess(), &annex, b"Bob", b"Bob", &ct, Some(&r), "none");
+    }
+    // sparse r (zero limbs)
+    for w in 0..(if thorough { 4 } else { 2 }) {
+        let rs = b32(&sparse_scalar(&mut rng, w % 2));
+        if let Some((ct, r)) = encrypt_event(t, &sess(), &annex, b"Bob", None, b"sparse nonce", vec![rs]) {
+            decrypt_event(t, &sess(), &annex, b"Bob", b"Bob", &ct, Some(&r), "none");
+        }
     }
     // every message length 1..=255 (quick: boundary subset)
     let lens: Vec<usize> = if thorough { (1..=255).collect() } else { vec![1, 2, 31, 32, 33, 64, 100, 223, 224, 254, 255] };
@@ -320,6 +340,12 @@ pub fn drive_kex(t: &mut Tracer, tier: &str, seed: u64) {
     // Annex example
     run(t, sess(), &hexb("0002e65b0762d042f51f0d23542b13ed8cfa2e9a0e7206361e013a283905e31f"), b"Alice", b"Bob", 16,
         vec![b32(&hexb("00005879dd1d51e175946f23b1b41e93ba31c584ae59a426ec1046a4d03b06c8"))], vec![b32(&hexb("00018b98c44bef9f8537fb7d071b2c928b3bc65bd3d69e1eee213564905634fe"))], "none", "none", &mut rng);
+    // sparse ephemeral scalars (zero limbs)
+    for w in 0..(if thorough { 4 } else { 2 }) {
+        let ke = scalar(&mut rng);
+        let (ra, rb) = (b32(&sparse_scalar(&mut rng, w % 2)), b32(&sparse_scalar(&mut rng, (w + 1) % 2)));
+        run(t, sess(), &ke, b"alice", b"bob", 24, vec![ra], vec![rb], "none", "none", &mut rng);
+    }
     // honest runs, klen 1..=128
     let klens: Vec<usize> = if thorough { (1..=128).collect() } else { vec![1, 16, 32, 33, 100, 128] };
     for (i, klen) in klens.iter().enumerate() {
@@ -373,7 +399,8 @@ pub fn drive_pairing(t: &mut Tracer, tier: &str, seed: u64) {
     // GT exponentiation (order N: g^(N-2) etc. stay within the library's pow precondition e < N-1)
     let g0 = guard_plain(|| verif::pairing(&TwistPoint::g_mul(&[1, 0, 0, 0]), &Point::g_mul(&[1, 0, 0, 0]))).ok().cloned().unwrap_or_default();
     if g0.len() == 384 {
-        for (e, cls) in [(small(0), "e=0"), (small(1), "e=1"), (small(2), "small"), (be_add_small(&nhex, -2), "e=N-2"), (scalar(&mut rng), "random"), (scalar(&mut rng), "random")] {
+        for (e, cls) in [(small(0), "e=0"), (small(1), "e=1"), (small(2), "small"), (be_add_small(&nhex, -2), "e=N-2"), (scalar(&mut rng), "random"), (scalar(&mut rng), "random"),
+                         (sparse_scalar(&mut rng, 0), "sparse"), (sparse_scalar(&mut rng, 1), "sparse"), (sparse_scalar(&mut rng, 2), "sparse"), (sparse_scalar(&mut rng, 3), "sparse")] {
             let (g2, e2) = (g0.clone(), u(&e));
             let o = guard_plain(move || verif::fp12_pow(&g2, &e2));
             let out = o.ok().cloned().unwrap_or_default();
@@ -466,6 +493,7 @@ pub fn drive_arith(t: &mut Tracer, tier: &str, seed: u64) {
     let g2 = TwistPoint::g_mul(&[1, 0, 0, 0]);
     let mut scalars: Vec<Vec<u8>> = vec![be_add_small(&vec![0u8; 32], 0), be_add_small(&vec![0u8; 32], 1), be_add_small(&vec![0u8; 32], 2), be_add_small(&nhex, -1), nhex.clone(), be_add_small(&nhex, 1), vec![0xffu8; 32]];
     for _ in 0..(if thorough { 10 } else { 2 }) { scalars.push(rng.bytes(32)); }
+    for w in 0..4 { scalars.push(sparse_scalar(&mut rng, w)); }
     let g1op = |t: &mut Tracer, s: String, f: &'static str, p: &Point, q: &Point, k: &[u8], cls: &str| {
         let (p2, q2, ku) = (*p, *q, u(k));
         if f == "equals" {
